@@ -104,6 +104,10 @@ impl<'r> G<'r> {
     }
 
     fn str_lit(&mut self) -> Card {
+        if self.rng.chance(1, 15) {
+            // the empty string: a zero-length payload
+            return Card::string_card("");
+        }
         self.fresh += 1;
         let n = if self.cfg.long_strings && self.rng.chance(1, 4) {
             40 + self.rng.usize(200)
